@@ -111,6 +111,27 @@ def run(tier):
     specs = [dict(fn=name, twin=name + '_reach', replay=mk_replay(sh, fa)) for name, sh, fa in gspecs]
     ch_obligations(run, path, specs, cond_to=300 if tier == 'quick' else 900, path_to=60)
     run.sample({'example': c14lib.build(6, 0, 1, 2, True, True, False)[0]})
+    # join kinds between the data tables (concrete family, z3 decides each pushed filter against the written conjuncts)
+    try:
+        members = c14lib.join_kind_members()
+        bad, und, n = {}, 0, 0
+        for jk, onf, wh, sql in members:
+            pr, ud = c14lib.check_join_kind_member(jk, onf, wh, sql)
+            n += 1
+            und += 1 if ud else 0
+            if pr:
+                bad.setdefault(' '.join(jk.upper().split()), []).append((sql, pr[0]))
+        for jk, items in sorted(bad.items()):
+            run.counterexample('table-model-join:join-kind:%s:on-conjunct-pushed' % jk, '%s: %s (%d statements of this join kind)' % (items[0][0], items[0][1], len(items)),
+                               {'join_kind_sql': items[0][0]}, True)
+        run.ob('join-kinds:%d statements (%d join kind spellings of the live grammar x %d ON clauses x %d WHERE clauses)' % (n, len(c14lib.join_spellings()), len(c14lib.ON_FILTERS), len(c14lib.JK_WHERES)),
+               'counterexample' if bad else 'discharged', '%d rejected / undecided' % und)
+        run.add_stats({'solver_calls': c14lib.STATS['z3_queries'], 'solver_s': c14lib.STATS['z3_s']})
+        run.validated += n
+        run.bounds['join_kind_spellings'] = c14lib.join_spellings()
+    except Exception as e:  # noqa
+        import traceback
+        run.error('join-kind family crashed: %r %s' % (e, traceback.format_exc()[-300:]))
     run.finish()
 
 
@@ -118,6 +139,14 @@ def replay(path):
     r = json.load(open(path))
     print(json.dumps(r, indent=1))
     import re
+    if r['replay'].get('join_kind_sql'):
+        from harness import c14lib
+        import re as _re
+        sql = r['replay']['join_kind_sql']
+        m_ = _re.match(r'SELECT \* FROM int1.tbl1 AS t (.*?) int2.tbl2 AS u ON t.id = u.id AND (.*?) JOIN mindsdb.pred AS m(.*)$', sql)
+        pr, ud = c14lib.check_join_kind_member(m_.group(1), m_.group(2), m_.group(3), sql)
+        print('native replay now: reproduced=%s %s' % (bool(pr), pr[:2]))
+        return 1 if pr else 0
     h = r['replay']['harness']
     if h.startswith('fr3_'):
         _, fr, sh3, fa3 = h.split('_')
